@@ -171,28 +171,101 @@ def getter_field(F, path):
     return ".".join(reversed(names)), (kind, conv)
 
 
+def pos_bounds(cond):
+    """(lo, hi) a condition of the accepting form establishes for the value it tests: comparisons with integer literals
+    (`v >= 0 && v <= 15`, `0 <= v`, ..) and `(lo..=hi).contains(v)`"""
+    lo = hi = None
+    for y in H.walk(cond):
+        if y.get("k") == "bin" and y["op"] in ("<", ">", "<=", ">="):
+            l_, r_ = H.strip(y["l"]), H.strip(y["r"])
+            while r_.get("k") == "cast":
+                r_ = H.strip(r_["e"])
+            while l_.get("k") == "cast":
+                l_ = H.strip(l_["e"])
+            if r_.get("k") == "lit" and r_.get("lk") == "int":
+                if y["op"] == "<=":
+                    hi = r_["v"]
+                elif y["op"] == "<":
+                    hi = r_["v"] - 1
+                elif y["op"] == ">=":
+                    lo = r_["v"]
+                elif y["op"] == ">":
+                    lo = r_["v"] + 1
+            elif l_.get("k") == "lit" and l_.get("lk") == "int":
+                if y["op"] == "<=":
+                    lo = l_["v"]
+                elif y["op"] == "<":
+                    lo = l_["v"] + 1
+                elif y["op"] == ">=":
+                    hi = l_["v"]
+                elif y["op"] == ">":
+                    hi = l_["v"] - 1
+        if y.get("k") == "mcall" and y["m"] == "contains":
+            st_ = H.strip(y["recv"])
+            if st_.get("k") == "call" and (st_.get("callee") or "").endswith("RangeInclusive::<Idx>::new") and len(st_.get("args", [])) == 2:
+                a0, a1 = H.strip(st_["args"][0]), H.strip(st_["args"][1])
+                if a0.get("k") == "lit":
+                    lo = a0["v"]
+                if a1.get("k") == "lit":
+                    hi = a1["v"]
+            elif st_.get("k") == "struct":
+                fl = {fd["name"]: H.strip(fd["e"]) for fd in st_.get("fields", [])}
+                nm_ = H.last(st_["res"].get("path") or "")
+                if fl.get("start", {}).get("k") == "lit":
+                    lo = fl["start"]["v"]
+                if fl.get("end", {}).get("k") == "lit":
+                    hi = fl["end"]["v"] - (0 if nm_ == "RangeInclusive" else 1)
+    return lo, hi
+
+
 def setter_info(F, path):
     """facts about a set_* method: accepted Object kind, guard interval, stored field, cast, mask"""
     f = F.fn(path)
     if f is None:
         return None
-    b = H.body_of(f)
+    # a range test may live in a small shared helper (`checked_integer(obj, 15, msg)`): read with helpers inlined
+    b = H.inline_helpers(F, H.body_of(f))
     info = {"stores": [], "guards": [], "kinds": []}
     order = []
+
+    def is_store(n):
+        return any(y.get("k") == "assign" and "header" in H.render(y["l"]) for y in H.walk(n))
     for x in H.walk(b):
         if x.get("k") == "match" and not H.is_try(x):
             for a in x["arms"]:
                 for v in H.pat_variants(a["pat"]):
                     if "object::Object::" in (v or ""):
                         info["kinds"].append(H.last(v))
+        if x.get("k") == "let" and x.get("pat") is not None:
+            # `if let Object::Integer(v) = ..` / `let Object::Integer(v) = .. else { return Err }`
+            for v in H.pat_variants(x["pat"]):
+                if "object::Object::" in (v or ""):
+                    info["kinds"].append(H.last(v))
+        if x.get("k") == "if" and H.strip(x["c"]).get("k") != "let" and is_store(x["t"]) and not ("return" in H.render(x["t"]) and "Err(" in H.render(x["t"]) and not is_store(x["t"])):
+            # positive form: `if 0 <= v && v <= MAX { store }` (the rejecting branch is the fall-through / else)
+            lo, hi = pos_bounds(x["c"])
+            if lo is not None or hi is not None:
+                info["guards"].append((lo, hi, H.render(x["c"])))
+                order.append(("guard", x.get("line")))
+        if x.get("k") == "match" and not H.is_try(x):
+            # `Object::Integer(n) if (0..=MAX).contains(n) => Ok(*n), _ => Err(..)`
+            for a in x["arms"]:
+                if a.get("guard") is not None and any("object::Object::" in (v or "") for v in H.pat_variants(a["pat"])) and \
+                        not any(y.get("k") == "call" and H.last(y.get("ctor") or "") == "Err" for y in H.walk(a["body"])):
+                    lo, hi = pos_bounds(a["guard"])
+                    if lo is not None or hi is not None:
+                        info["guards"].append((lo, hi, H.render(a["guard"])))
+                        order.append(("guard", a.get("line")))
         if x.get("k") == "if":
             c = x["c"]
             txt = H.render(c)
-            if "return" in H.render(x["t"]) and "Err(" in H.render(x["t"]):
+            if "return" in H.render(x["t"]) and "Err(" in H.render(x["t"]) and not is_store(x["t"]):
                 lo = hi = None
                 for y in H.walk(c):
                     if y.get("k") == "bin" and y["op"] in ("<", ">", "<=", ">="):
                         r = H.strip(y["r"])
+                        while r.get("k") == "cast":
+                            r = H.strip(r["e"])
                         if r.get("k") == "lit" and r["lk"] == "int":
                             if y["op"] == "<":
                                 lo = r["v"]
